@@ -42,7 +42,11 @@ func (a Any) completeIndexExprAtPos(ctx context.Context, pos hcl.Pos) []lang.Can
 	// If there is a prefix or valid expression within the index step,
 	// we're dealing with an index expression and can defer completion for the key.
 	case *hclsyntax.IndexExpr:
-		return newExpression(a.pathCtx, eType.Key, cons).CompletionAtPos(ctx, pos)
+		// only the key is completed here; a cursor elsewhere (e.g. on the collection)
+		// must not be handed to the key, which would build edit ranges ending before they start
+		if eType.Key.Range().ContainsPos(pos) || eType.Key.Range().End.Byte == pos.Byte {
+			return newExpression(a.pathCtx, eType.Key, cons).CompletionAtPos(ctx, pos)
+		}
 	}
 
 	return candidates
